@@ -47,6 +47,20 @@ def upper_ok(t, F):
     return False
 
 
+def evaluated_frequencies(value):
+    """the frequencies the injected signal is evaluated on: the first argument of the (user) frequency profile in the value
+    that is added to the data, with the row replication of the grid (np.meshgrid / repeat) taken off"""
+    fp = sym('f_profile')
+    for a in T.all_atoms(value).values():
+        if a.kind == 'call' and a.args[0] == 'apply' and a.args[1] and a.args[1][0].key == fp.key and len(a.args[1]) >= 2:
+            ff = a.args[1][1]
+            fa = ff.single_atom()
+            if fa is not None and fa.kind == 'call' and fa.args[0] == 'tile_rows' and fa.args[1]:
+                return fa.args[1][0]
+            return ff
+    return None
+
+
 def callees_of(prog, fi, seen=None):
     seen = seen if seen is not None else set()
     for n in ast.walk(fi.node):
@@ -157,23 +171,26 @@ def run(ctx):
                 ctx.ob('RANGE', f'[{tag}] column slice {nm} lies in [0, fchans] (a negative bound would wrap around)', fi,
                        lower_ok(b) and upper_ok(b, F), {'bound': pretty(b), '>=0': lower_ok(b), '<=fchans': upper_ok(b, F)},
                        node=ds[0].node, construct=ds[0].text() + f' [{nm}]')
-            rf = [e for e in I.events if e.kind == 'call' and e.data.get('name') == 'numpy.meshgrid' and e.owner == fi.short]
-            ctx.require(rf, 'add_signal: the frequency/time mesh (np.meshgrid) was not found')
+            fr_ = evaluated_frequencies(ds[0].data.get('rhs') if ds[0].data.get('rhs') is not None else ds[0].data['value'])
+            ctx.require(fr_ is not None, 'add_signal: the frequencies handed to f_profile (the frequency grid) were not found')
             want = ctx.spec(fi, 'self.fs[LO:HI]', env={'LO': lo, 'HI': hi})
-            ctx.formula('AGREE', f'[{tag}] the frequencies evaluated are those of the written columns', fi, rf[0].data['args'][0], want,
-                        node=rf[0].node, construct='np.meshgrid(<frequencies>, ...)')
+            ctx.formula('AGREE', f'[{tag}] the frequencies evaluated are those of the written columns', fi, fr_, want,
+                        node=ds[0].node, construct='f_profile(<frequency grid>, ...)')
             # with frequency sub-sampling the grid must still be anchored on (and span) exactly the written columns
             r2, I2 = ctx.run(fi, args={'bounding_f_range': sym('BFR') if bounded else NONE, 'bp_profile': NONE,
                                        'integrate_path': FALSE, 'integrate_t_profile': FALSE, 'integrate_f_profile': TRUE,
                                        'doppler_smearing': FALSE}, no_inline=(FR + 'get_index',))
-            mg = [e for e in I2.events if e.kind == 'call' and e.data.get('name') == 'numpy.meshgrid' and e.owner == fi.short]
-            ctx.require(mg, 'add_signal: the frequency/time mesh (np.meshgrid) was not found')
+            ds2 = [e for e in I2.events if e.kind == 'store' and e.data.get('target') == 'sub' and e.owner == fi.short
+                   and ast.unparse(e.data['base_node']) == 'self.data']
+            ctx.require(ds2, 'add_signal: the store into self.data was not found [integrate_f_profile]')
+            fr2 = evaluated_frequencies(ds2[0].data.get('rhs') if ds2[0].data.get('rhs') is not None else ds2[0].data['value'])
+            ctx.require(fr2 is not None, 'add_signal: the frequencies handed to f_profile (the sub-sampled grid) were not found')
             # (an empty range -- wholly outside the band -- has nothing to sub-sample and must not be indexed)
             want2 = ctx.spec(fi, 'ITE(len(self.fs[LO:HI]) > 0, np.linspace(self.fs[LO:HI][0], self.fs[LO:HI][0] + len(self.fs[LO:HI]) * self.df, '
                                  'len(self.fs[LO:HI]) * f_subsamples, endpoint=False), self.fs[LO:HI])', env={'LO': lo, 'HI': hi})
             ctx.formula('AGREE', f'[{tag}, integrate_f_profile] the sub-sampled frequencies start at the first written column and span '
-                        'exactly the written columns', fi, mg[0].data['args'][0], want2, node=mg[0].node,
-                        construct='np.meshgrid(restricted_fs, ...) [sub-sampled grid]')
+                        'exactly the written columns', fi, fr2, want2, node=ds2[0].node,
+                        construct='f_profile(<sub-sampled frequency grid>, ...)')
         ctx.clause = 'D3'
     T.SYMKIND.clear()
 
